@@ -241,7 +241,8 @@ pub fn main_for(prop: Arc<dyn Property>, args: &Args) -> i32 {
             Tier::Thorough => 900,
         });
     let mut workers = vec![];
-    for _w in 0..args.jobs {
+    let jobs = prop.max_jobs().map(|m| m.min(args.jobs)).unwrap_or(args.jobs).max(1);
+    for _w in 0..jobs {
         let prop = prop.clone();
         let next = next.clone();
         let stop = stop.clone();
